@@ -169,3 +169,5 @@ def run(rep, repo, tier):
     rep.floor('R-RING:invariant', 60)
     rep.floor('R-RING:post', 60)
     rep.floor('R-RINGCOUNTER:invariant', 10)
+    import c03_content
+    c03_content.run_ext(rep, repo, tier)
